@@ -109,6 +109,13 @@ def extract(root="/repo", overlays=None, jobs=16):
             pass
         return merged
     os.makedirs(cdir, exist_ok=True)
+    # one extraction at a time per tree (checks started in parallel wait for the first one and then hit the cache)
+    import fcntl
+    lock = open(os.path.join(cdir, ".lock"), "w")
+    fcntl.flock(lock, fcntl.LOCK_EX)
+    if os.path.exists(merged):
+        lock.close()
+        return merged
     units, notes = unit_list(root)
     if not units:
         raise AnalysisBroken("no translation units found under " + root)
@@ -154,6 +161,7 @@ def extract(root="/repo", overlays=None, jobs=16):
             os.rmdir(tmpd)
         except OSError:
             pass
+    lock.close()
     _prune_cache(keep=key)
     return merged
 
